@@ -43,10 +43,14 @@ def main():
     rows.append('Decided by the verifier alone (a named Verus/Kani obligation that is discharged on the unchanged tree fails): %d; function rewritten '
                 'into a form the front end rejects, decided by concrete replay of its postcondition on the real code: %d; in code no contract '
                 'reaches, caught by a bounded stand-in only: %d; not detected: %d.' % (n['verifier'], n['replay'], n['bounded'], n['missed']))
-    ben = []
+    ben = {}
     for d in sorted(glob.glob(os.path.join(VERIF, 'seeded', 'benign-*'))):
         m = json.load(open(d + '/meta.json'))
-        ben.append(m.get('last_outcome', '?'))
+        o = m.get('outcome_when_recorded', 'not recorded')
+        ben.setdefault(o, []).append(os.path.basename(d).replace('benign-', ''))
+    rows.append('')
+    rows.append('Behaviour-preserving refactorings (`seeded/benign-*`, %d): ' % sum(len(v) for v in ben.values())
+                + '; '.join('%s: %d%s' % (k, len(v), (' (%s)' % ', '.join(v)) if len(v) <= 6 else '') for k, v in sorted(ben.items())) + '.')
     p = os.path.join(VERIF, 'DESIGN.md')
     s = open(p).read()
     a, b = s.index('<!-- seedtable:begin -->'), s.index('<!-- seedtable:end -->')
